@@ -982,4 +982,38 @@ BENIGN = [
 	next, err := ref.fs.newRef(newpath)""")]),
  ("c15-newref-stat-unvalidated", "C15", [("ufs/filesys.go", """	info, err := os.Stat(fpath)""", """	info, err := os.Stat(filepath.Join(fs.Base, p))
 	_ = fpath""")]),
+
+ ("c03-header-readfull-uint32", "C03", [("channel.go", """	var msize uint32
+
+	if err := binary.Read(rd, binary.LittleEndian, &msize); err != nil {
+		return 0, err
+	}
+""", """	var hdr [4]byte
+	if _, err := io.ReadFull(rd, hdr[:]); err != nil {
+		return 0, err
+	}
+	msize := binary.LittleEndian.Uint32(hdr[:])
+""")]),
+
+ ("c16-depth-trimsuffix", "C16", [("path.go", """depth := strings.Count(dir[:len(dir)-1], "/")""", """depth := strings.Count(strings.TrimSuffix(dir, "/"), "/")""")]),
+
+ ("c18-walk-append-full-slice-expr", "C18", [("ramfs/dirent.go", """		rh.parents = make([]*FileEnt, len(h.parents)-ndel + 1 + len(ans)-ndel)
+""", """		keep := len(h.parents) - ndel
+		rh.parents = append(append(h.parents[:keep:keep], ref), ans[ndel:]...)
+		rh.parents = append([]*FileEnt(nil), rh.parents...)
+"""), ("ramfs/dirent.go", """		i0 := len(h.parents)-ndel + 1
+		for i := range rh.parents {
+			var p *FileEnt
+			if i < len(h.parents)-ndel {
+				p = h.parents[i]
+			} else if i >= i0 {
+				p = ans[ndel+i-i0]
+			} else {
+				p = ref
+			}
+			p.incref()
+			rh.parents[i] = p
+		}""", """		for _, p := range rh.parents {
+			p.incref()
+		}""")]),
 ]
